@@ -32,6 +32,7 @@ import ModVerif.Proofs.ModfileSrcBytes
 import ModVerif.Proofs.ModfileFmtCom
 import ModVerif.Proofs.ModfileStrictTokDir
 import ModVerif.Proofs.ModfileFmtRet2
+import ModVerif.Proofs.ModfileFmtRet3b
 namespace ModVerif.Props.C02
 open ModVerif ModVerif.Modfile
 
@@ -1118,5 +1119,82 @@ theorem C02_fixer_empty_string : ∃ (fx : Fixer) (x : Bytes) (f : Modfile.File)
     intro f' hf'
     rw [hf'] at h3
     simp at h3
+
+open Proofs.ModfileFmtRet Proofs.ModfileC20 in
+/-- ★ `fixRetract_tokens` — what the deferred `fixRetract` pass of an ACCEPTED strict parse with a fixer leaves behind
+    (first half of clause 3 with retract directives, step 1): line identities of `f.syn` are pairwise distinct, a file
+    with retractions has a non-empty module path (`modPath f`, the path `fixRetract` hands to the fixer), and every
+    typed retract entry has its line in `f.syn` (found by its identity) whose tokens are `keep ++ args'` — `keep` empty
+    (line of a block) or the verb — with `args'` EXACTLY the fixed bounds of the typed interval (`[v]`, or
+    `[ v , w ]`, then the untouched rest; the model writes the fixer's result itself, as `*s = t` in Go's
+    `parseVersion`), both bounds being results of `fx` at the module path (`FixedArgs`).  No hypothesis on the fixer. -/
+theorem fixRetract_tokens (name x : Bytes) (fx : Fixer) (f : Modfile.File)
+    (h : parseToFile name x (some fx) true = .ok f) :
+    NodupIds f.syn.stmts ∧ (f.retract ≠ [] → modPath f ≠ []) ∧
+    ∀ r ∈ f.retract, ∃ l ∈ linesOf f.syn.stmts, l.id = r.lineId ∧ ∃ keep args' rest, l.token = keep ++ args' ∧
+      (keep = [] ∨ keep = [B "retract"]) ∧ FixedArgs (modPath f) fx args' r.interval rest :=
+  Proofs.ModfileFmtRet.fixRetract_tokens name x fx f h
+
+open Proofs.ModfileFmtRet Proofs.ModfileFmtDir in
+/-- ★ `retract_bounds_fixpoints` — step 2: with a fixer that is idempotent on its image, every retract bound of an
+    accepted file is a fixpoint of the fixer at the module path, which is non-empty when there is a retraction (these
+    are the last two hypotheses of `format_preserves_directives_fix_partial`). -/
+theorem retract_bounds_fixpoints (name x : Bytes) (fx : Fixer) (f : Modfile.File)
+    (h : parseToFile name x (some fx) true = .ok f) (hfix : FixOK (some fx)) :
+    (f.retract ≠ [] → modPath f ≠ []) ∧
+    ∀ r ∈ f.retract, fx (modPath f) r.interval.low = .ok r.interval.low ∧
+      fx (modPath f) r.interval.high = .ok r.interval.high :=
+  Proofs.ModfileFmtRet.retract_bounds_fixpoints name x fx f h hfix
+
+open Proofs.ModfileFmtRet Proofs.ModfileFmtDir Proofs.ModfileC20 in
+/-- step 3, retract lines only: in the tree of an accepted WELL-FORMED file every retract line is a fixpoint of the
+    placeholder parse `File.add` makes (`dontFixRetract`) and reads the typed interval — the form a second run of the
+    directive layer records (`Proofs.ModfileFmtRet.RetTokIn`). -/
+theorem retract_lines_dontFix (name x : Bytes) (fx : Fixer) (f : Modfile.File)
+    (h : parseToFile name x (some fx) true = .ok f) (hwf : WellFormed f) :
+    ∀ r ∈ f.retract, ∃ l ∈ linesOf f.syn.stmts, l.id = r.lineId ∧ ∃ keep args rest, l.token = keep ++ args ∧
+      (keep = [] ∨ keep = [B "retract"]) ∧
+      parseVersionInterval [] args (some dontFixRetract) = (args, .ok (r.interval, rest)) :=
+  Proofs.ModfileFmtRet.retract_lines_dontFix name x fx f h hwf
+
+open Proofs.ModfileFmtDir Proofs.ModfileEol in
+/-- ★ `format_preserves_directives_fix_partial2` — clause 3 WITH a version fixer and WITH `retract` directives, for the
+    accepted file itself; the two fixer hypotheses of `format_preserves_directives_fix_partial` (non-empty module
+    path, every retract bound a fixpoint of the fixer) are DISCHARGED (`retract_bounds_fixpoints`).  If the strict
+    parser with the fixer `fx` (idempotent on its image, never the empty string) accepts `x` as the well-formed `f`,
+    `f.syn` has the printable shape, and a second run of the directive layer over `f.syn` reports no error, rewrites
+    no token and reads the values of `f`, then the strict parser with `fx` accepts `Format(f.syn)` with identical
+    values, retract intervals included.
+    PARTIAL: the three tree hypotheses (`hw`, `hnl`, `hc` — for `f.retract = []` they follow from the parse,
+    `format_preserves_directives_strict`) and the second-run hypothesis (`ha`, `he`, `hv`) are not derived from the
+    parse; for the retract lines the second run is settled by `retract_lines_dontFix`, what is missing is the replay
+    of the non-retract lines around them (see lean/PENDING.md). -/
+theorem format_preserves_directives_fix_partial2 (name x : Bytes) (fx : Fixer) (f : Modfile.File) (st1 : AddState)
+    (h : parseToFile name x (some fx) true = .ok f) (hwf : WellFormed f)
+    (hfix : FixOK (some fx)) (hne : FixNE (some fx))
+    (hw : EWFStmts f.syn.stmts) (hnl : ∀ s ∈ f.syn.stmts, NlOK s) (hc : f.syn.comments.before = [])
+    (ha : addStmts (some fx) true { file := { syn := f.syn } } f.syn.stmts = (st1, f.syn.stmts))
+    (he : st1.errsRev = []) (hv : values st1.file = values f) :
+    ∃ f', parseToFile name (format f.syn) (some fx) true = .ok f' ∧ values f' = values f :=
+  Proofs.ModfileFmtRet.reparse_of_parse_fix name x fx f st1 h hwf hfix hne hw hnl hc ha he hv
+
+open Proofs.ModfileFmtDir in
+/-- non-vacuity of `fixRetract_tokens` / `retract_bounds_fixpoints` / `…_fix_partial2`, evaluated with `fixStub`: the
+    go.mod with a retract line, an interval and a block is accepted as a well-formed file with three retractions and
+    the module path `example.com/m`; the retract lines of `f.syn` carry exactly the fixed bounds; the second run over
+    `f.syn` reports no error, rewrites nothing and reads the same values. -/
+example :
+    let x := B "module example.com/m\n\nretract latest // r1\nretract [v1.2, master]\nretract (\n\tv1.3.0+meta // r3\n)\n"
+    (match parseToFile (B "go.mod") x (some fixStub) true with
+     | .ok f => wellFormedB f && decide (f.retract.length = 3) &&
+         decide (Proofs.ModfileFmtRet.modPath f = B "example.com/m") &&
+         decide ((Proofs.ModfileC20.linesOf f.syn.stmts).map (·.token) =
+           [[B "module", B "example.com/m"], [B "retract", B "v1.0.0"],
+            [B "retract", B "[", B "v1.2.0", B ",", B "v0.0.0-20200101000000-000000000000", B "]"], [B "v1.3.0"]]) &&
+         (match addStmts (some fixStub) true { file := { syn := f.syn } } f.syn.stmts with
+          | (st1, ss) => decide (ss = f.syn.stmts) && st1.errsRev.isEmpty &&
+              decide (st1.file.retract.map (·.interval) = f.retract.map (·.interval)) &&
+              decide (st1.file.module.map (·.mod.path) = f.module.map (·.mod.path)))
+     | .error _ => false) = true := by decide +kernel
 
 end ModVerif.Props.C02
